@@ -45,6 +45,7 @@ def envs(tier):
 
 
 PREFIXES = ['AT', 'GC', 'ATG', 'TA', 'CG', 'AC']
+FORMS = ['plain', 'gz', 'plain', 'gz', 'alias']   # alias: same content under another genome's file name, elsewhere
 
 
 def draw_kspec(ch, default_every=12):
@@ -135,7 +136,7 @@ def build_world(ctx, ch, n_ref_range=(3, 25), pool_range=(2, 8)):
 	pool = Q.build(ctx, random.Random(ch.subseed('pool')), world, npool, int_ids=int_ids)
 	ctx.log('world', k=kspec.k, prefix=kspec.prefix_str, n_ref=n_gen, n_taxa=len(world.taxa), id_attr=world.id_attr,
 	        pad=len(world.sig_order) - n_gen, n_pool=npool, int_ids=int_ids,
-	        gdb=blob_hash(open(world.gdb, 'rb').read()), gs_ids=blob_hash(repr(world.sig_ids)),
+	        taxa=blob_hash(repr(world.taxa)), gs_ids=blob_hash(repr(world.sig_ids)),
 	        pool=[(g['stem'] + g['ext'], blob_hash(g['sig'])) for g in pool.genomes])
 	return world, pool
 
@@ -150,9 +151,19 @@ def scenario(ctx):
 	npool = len(pool.genomes)
 	omp.set_threads(ch.int(1, 16, 'initial_threads'))
 	n_cmd = ch.int(8, 16, 'n_cmd')
-	all_paths = [g['plain'] for g in pool.genomes] + [g['gz'] for g in pool.genomes]
+	all_paths = [g['plain'] for g in pool.genomes] + [g['gz'] for g in pool.genomes] + [g['alias'] for g in pool.genomes if g['alias']]
 	for c in range(n_cmd):
 		L = f'c{c}'
+		if ch.flip(0.12, L + '.failing_before'):
+			# context: a command that fails in mid-parse (cut gzip member). Nothing is demanded of it here; the
+			# commands after it must still print each genome's own row.
+			fk = Knobs(ch, L + '.fail', with_chunk=False)
+			g0 = ch.int(0, npool - 1, L + '.fail.g')
+			fargs = ['-d', world.dir, 'query', '-o', os.path.join(ctx.scratch, f'fail-{c}.csv'), '--no-progress'] + \
+				([pool.genomes[g0]['plain'], pool.broken] if ch.flip(0.5, L + '.fail.order') else [pool.broken, pool.genomes[g0]['plain']])
+			fres, _ = run_cli(ctx, fargs, fk, short_paths=all_paths, short_seed=0)
+			ctx.fault('failing_command_before', status=fres.status)
+			ctx.log('failing_cmd', status=fres.status, exc=type(fres.exc).__name__ if fres.exc else None)
 		channel = ch.pick(['positional', 'listfile', 'sigfile'], L + '.channel')
 		fmt = ch.pick(['csv', 'json', 'archive'], L + '.fmt')
 		strict = ch.flip(0.25, L + '.strict')
@@ -169,8 +180,8 @@ def scenario(ctx):
 		else:
 			bsize = ch.int(1, 6, L + '.bsize')
 			batch = [ch.int(0, npool - 1, f'{L}.b{i}') for i in range(bsize)]
-			forms = [ch.pick(['plain', 'gz'], f'{L}.f{i}') for i in range(bsize)]
-			paths = [pool.genomes[g][f] for g, f in zip(batch, forms)]
+			forms = [ch.pick(FORMS, f'{L}.f{i}') for i in range(bsize)]
+			paths = [pool.genomes[g][f] or pool.genomes[g]['plain'] for g, f in zip(batch, forms)]
 			if channel == 'positional':
 				# absolute or relative to cwd? the harness never changes cwd: absolute paths
 				inputs = paths
@@ -194,16 +205,21 @@ def scenario(ctx):
 		if cores is not None:
 			args += ['-c', str(cores)]
 		args += args_in
-		desc = dict(channel=channel, fmt=fmt, strict=strict, cores=cores, progress=progress, route=route, batch=batch, **knobs.describe())
+		cwd = pool.decoy_cwd if ch.flip(0.5, L + '.decoy_cwd') else None
+		desc = dict(channel=channel, fmt=fmt, strict=strict, cores=cores, progress=progress, route=route, batch=batch, decoy_cwd=bool(cwd), **knobs.describe())
 		if route == 'cli':
-			res, h = run_cli(ctx, args, knobs, short_paths=all_paths, short_seed=ch.subseed(L + '.short'), chunk=True)
+			res, h = run_cli(ctx, args, knobs, short_paths=all_paths, short_seed=ch.subseed(L + '.short'), chunk=True, cwd=cwd, ch=ch, label=L)
 			status, exc, stderr = res.status, res.exc, res.stderr
 		else:
-			status, exc, stderr, h = _api_route(ctx, ch, L, world, pool, channel, args_in, fmt, strict, cores, progress, knobs, out, all_paths)
+			status, exc, stderr, h = _api_route(ctx, ch, L, world, pool, channel, args_in, fmt, strict, cores, progress, knobs, out, all_paths, cwd)
 		ctx.stats['executions'] += 1
 		order = list(h.sim.completion_order)
 		text = open(out).read() if os.path.exists(out) else ''
-		ctx.log('cmd', **desc, status=status, order=order, out=blob_hash(text), omp=h.omp_sig)
+		try:
+			out_hash = blob_hash(canon(parse_output(fmt, text)))   # not the raw text: JSON/archive carry a wall-clock timestamp
+		except Exception:
+			out_hash = 'unparseable'
+		ctx.log('cmd', **desc, status=status, order=order, out=out_hash, omp=h.omp_sig)
 		if knobs.chunksize is not None and knobs.chunksize < n_ref:
 			ctx.probe('chunk_smaller_than_references')
 		if len(order) >= 2 and order != sorted(order):
@@ -240,7 +256,7 @@ def scenario(ctx):
 	ctx.sample = dict(n_ref=n_ref, n_pool=npool, commands=n_cmd)
 
 
-def _api_route(ctx, ch, L, world, pool, channel, args_in, fmt, strict, cores, progress, knobs, out, all_paths):
+def _api_route(ctx, ch, L, world, pool, channel, args_in, fmt, strict, cores, progress, knobs, out, all_paths, cwd=None):
 	"""The public API the command is a wrapper of; chunksize is an ordinary argument here."""
 	from gambit.cli import common
 	from gambit.cli.query import get_exporter
@@ -252,7 +268,8 @@ def _api_route(ctx, ch, L, world, pool, channel, args_in, fmt, strict, cores, pr
 	status, exc = 0, None
 	h = None
 	try:
-		with simulated(ctx, knobs, all_paths, ch.subseed(L + '.short')) as h:
+		from ..harness import in_dir, knob_defaults
+		with simulated(ctx, knobs, all_paths, ch.subseed(L + '.short')) as h, in_dir(cwd), knob_defaults(ctx, ch, L):
 			db = ReferenceDatabase.load_from_dir(world.dir)
 			params = QueryParams(classify_strict=strict, chunksize=knobs.chunksize)
 			pconf = progress_config(TestProgressMeter) if progress else None
